@@ -137,7 +137,7 @@ func c16Families(tier string) []engine.Family {
 	// (b) parsers
 	sc := docScope{Nodes: tierPick(tier, 3, 4), UBJTypes: tierPick(tier, 8, 15), JSONTok: 0, JSONAtoms: 1, NumStride: tierPick(tier, 40, 8), Ctx: tierPick(tier, 3, 0), ScStride: tierPick(tier, 3, 1)}
 	pf := allDocFamilies(sc, func(x *engine.Exec, c *DocCase) {
-		if c.Ref.Status != model.Complete || len(c.Doc) > 80 {
+		if c.Ref.Status != model.Complete || len(c.Doc) > 600 {
 			return
 		}
 		cd := c.Codec
